@@ -11,7 +11,7 @@ from contracts.utils import Base
 
 DOCUMENTED = {'PyCdlibInvalidISO': None, 'PyCdlibInvalidInput': None, 'PyCdlibInternalError': None}
 # the "malformed input" family: what low-level decoding of damaged bytes raises; PyCdlib.open converts it at the API boundary
-MALFORMED = {'struct.error': None, 'IndexError': None, 'KeyError': None, 'UnicodeDecodeError': None, 'ValueError': None}
+MALFORMED = {'struct.error': None, 'IndexError': None, 'KeyError': None, 'UnicodeDecodeError': None, 'ValueError': None, 'OverflowError': None}
 
 
 class Safety(Base):
@@ -346,6 +346,53 @@ def damaged_image(k):
     return bytes(img)
 
 
+def gpt_header_summary(it, fv, args, kwargs):
+    """callee contract of IsoHybrid.parse_secondary_gpt_header (GPTHeaderParse / AutoParse): the header fields are whatever 64- and
+    32-bit values the bytes hold, or a documented / malformed-input class is raised"""
+    if it.branch(it.ctx.fresh_bool('secondary_header_rejected')):
+        it.raise_exc('struct.error', 'short header')
+    hdr = args[0].fields['secondary_gpt'].fields['header']
+    for name, bits in (('current_lba', 64), ('num_parts', 32)):
+        v = it.ctx.fresh_int('secondary_' + name)
+        it.ctx.assume(sx.And(v >= 0, v < 2 ** bits))
+        hdr.fields[name] = v
+    return None
+
+
+def gpt_parts_summary(it, fv, args, kwargs):
+    if it.branch(it.ctx.fresh_bool('secondary_partitions_rejected')):
+        it.raise_exc('struct.error', 'short partition entry')
+    return None
+
+
+@contract
+class OpenHybridGlue(Safety):
+    """C15, the glue of _open_fp around the backup GPT of a hybrid image: the file is positioned with 64-bit values taken from the
+    image (backup LBA of the primary header; current LBA and number of partitions of the backup header) - whatever they are, only
+    documented classes or members of the malformed-input family come out (positions no file can have included)"""
+    target = 'pycdlib.pycdlib.PyCdlib._open_fp'
+    label = 'pycdlib.PyCdlib._open_fp<backup GPT of a hybrid image>'
+    hooks = {'pycdlib.isohybrid.IsoHybrid.parse_secondary_gpt_header': gpt_header_summary,
+             'pycdlib.isohybrid.IsoHybrid.parse_secondary_gpt_partitions': gpt_parts_summary}
+    crosscheck = False
+    replayable = False
+    covers = ('return',)
+
+    def setup(self, c):
+        from pyvc.contract import Fragment
+        a = c.a
+        a.F = c.abytes('F')
+        a.fp = c.afile(a.F, c.int('F_pos', 0))
+        a.backup_lba = c.int('primary_backup_lba', 0, 2 ** 64 - 1)
+        hdr1 = c.obj('pycdlib.isohybrid.GPTHeader', _initialized=True, backup_lba=a.backup_lba)
+        hdr2 = c.obj('pycdlib.isohybrid.GPTHeader', _initialized=False, current_lba=0, num_parts=0)
+        hyb = c.obj('pycdlib.isohybrid.IsoHybrid', _initialized=True, efi=True,
+                    primary_gpt=c.obj('pycdlib.isohybrid.GPT', _initialized=True, is_primary=True, header=hdr1),
+                    secondary_gpt=c.obj('pycdlib.isohybrid.GPT', _initialized=False, is_primary=False, header=hdr2))
+        a.self = c.obj('pycdlib.pycdlib.PyCdlib', _initialized=False, _cdfp=a.fp)
+        return Call([], fn=Fragment(self.target, {'stmts': ('if tmp_isohybrid.efi:', 'if tmp_isohybrid.efi:')}, dict(self=a.self, tmp_isohybrid=hyb)))
+
+
 # ---------------------------------------------------------------------------------------------
 # termination and memory: the directory scanner of _walk_directories
 # ---------------------------------------------------------------------------------------------
@@ -485,7 +532,8 @@ class AnyKeyDict(dict):
 # ------------------------------------------------------------------------------------------------------------------
 # bounded stand-in: random corruptions and truncations of whole images, opened by the real library under CPython
 # ------------------------------------------------------------------------------------------------------------------
-FUZZ_IMAGES = ['plain-small', 'rock-ridge', 'joliet', 'deep-rr', 'rr-112-xa-symlinks', 'udf-basic', 'udf-symlink', 'eltorito']
+FUZZ_IMAGES = ['plain-small', 'rock-ridge', 'joliet', 'deep-rr', 'rr-112-xa-symlinks', 'udf-basic', 'udf-symlink', 'eltorito',
+               'hybrid:efi', 'hybrid:mac-like', 'random:udf-rr-joliet:1:28', 'rr-ce-history']
 
 
 @contract
@@ -523,21 +571,33 @@ class OpenCorruptedImage(Base):
                 iso, _ = F.build_udf(c, a.image)
             elif a.image == 'eltorito':
                 iso, _ = B.run_history(c, 'sections')
+            elif a.image.startswith('hybrid:'):
+                k = B.HybridImage()
+                k.variant = {'mac-like': 'random:5'}.get(a.image[7:], a.image[7:])
+                iso = k.setup(c).self_obj
             else:
                 iso, _ = F.build(c, a.image)
             o = io.BytesIO()
             iso.write_fp(o)
-            cache[a.image] = o.getvalue()
-        base = cache[a.image]
+            img = o.getvalue()
+            # where damage is looked for: the bytes that carry something (non-zero) and their neighbours, in the first 400 sectors
+            # (system area with MBR / GPT, descriptors, path tables, directories, continuation areas, UDF structures) and in the
+            # last two sectors (last anchor, backup GPT)
+            cand = set()
+            for rng in (range(0, min(len(img), 400 * 2048)), range(max(0, len(img) - 2 * 2048), len(img))):
+                for i in rng:
+                    if img[i]:
+                        cand.update(range(max(0, i - 2), min(len(img), i + 3)))
+            cache[a.image] = (img, sorted(cand))
+        base, cand = cache[a.image]
         rnd = random.Random('%s/%d' % (a.image, a.seed))
         b = bytearray(base)
-        meta_end = min(len(b), (300 if a.image.startswith('udf') else 48) * 2048)
-        if rnd.random() < 0.1:
+        if rnd.random() < 0.07:
             b = b[:rnd.randrange(0, len(b))]
         else:
-            for _ in range(rnd.choice([1, 1, 2, 4, 8])):
-                pos = rnd.randrange(16 * 2048, meta_end)
-                b[pos] = rnd.choice([0, 1, 0xff, 0x7f, 0x80, b[pos] ^ (1 << rnd.randrange(8)), rnd.randrange(256)])
+            for _ in range(rnd.choice([1, 1, 1, 2, 3, 6])):
+                pos = rnd.choice(cand)
+                b[pos] = rnd.choice([0, 1, 0xff, 0x7f, 0x80, b[pos] ^ (1 << rnd.randrange(8)), rnd.randrange(256), (b[pos] + 1) & 0xff, (b[pos] - 1) & 0xff])
 
         class Timeout(BaseException):
             pass
